@@ -33,9 +33,10 @@ DECIDED = [
 DECIDED.append(
     "'every solver built with valid parameters': RungeKutta::solve / Adams::solve / BDF::solve (in the same units) return a solver that satisfies the invariant the step() contracts require "
     "(0 < dt = (dt_min + dt_max)/2 <= dt_max, time < end, empty history, constants, tables of the right shape), so the clauses above hold from the first call on")
+DECIDED.append("every yielded state has the dimension of the solver's state (postcondition of step() for Runge-Kutta, Adams and BDF -- for the start-up points through the history invariant; for Euler the yielded state IS the stored state)")
 NOT_DECIDED = [
     "Adams only: a multistep trial whose error estimate is exactly zero (division by it in the step-size update; the invariant is not re-established there and lemma_mclock does not apply to that call)",
-    "termination (a solver may answer Redo forever) and finiteness of the states (exact reals have no NaN/inf)",
+    "termination (a solver may answer Redo forever) and finiteness of the entries of the states (exact reals have no NaN/inf)",
     "IVPIterator::next turning step() results into items is decided in C06 (iterator unit)",
 ]
 ASSUMPTIONS = C03.ASSUMPTIONS if hasattr(C03, "ASSUMPTIONS") else []
